@@ -248,7 +248,7 @@ func plans(thorough bool) []worldPlan {
 	}
 	commonLen, chanLen, depth := 3, 3, 6
 	if thorough {
-		commonLen, chanLen, depth = 4, 3, 8
+		commonLen, chanLen, depth = 5, 3, 9
 	}
 	if v := os.Getenv("VERIF_C03_BOUNDS"); v != "" { // experiments: "common,chan,depth"
 		fmt.Sscanf(v, "%d,%d,%d", &commonLen, &chanLen, &depth)
